@@ -311,7 +311,13 @@ func (r *Report) finish(id string, cfg *PropCfg, writeEvidence bool) int {
 		for _, v := range violations {
 			fmt.Println(v)
 		}
+		for _, u := range undecidedTargets {
+			fmt.Printf("NOTE property=%s undecided-target: %s\n", id, strings.ReplaceAll(u, "\n", " | "))
+		}
 		return 1
+	}
+	if len(undecidedTargets) > 0 {
+		return die(2, id, "%s", strings.Join(undecidedTargets, "; "))
 	}
 	return 0
 }
